@@ -208,6 +208,20 @@ def r3(rr, repo):
             st = [e for e in p.events if e.kind == 'call' and e.term.endswith('.emitter.emit_start')]
             rr.ob('with an emitter present every path through the head of Filter.init reaches emit_start', bool(st) and p.outcome is None, mod, starts[0], witness=p.pc_text()[-200:], key='start-on-every-path')
         rr.floor('paths through the head of Filter.init with an emitter', k, 1, mod, init)
+    # ... and between the construction of the filter and init() nothing of run() itself can fail: whatever raises there goes through the handlers that report the end of the run - terminal
+    # events for a run that has no START. Table lookups with caller-supplied keys (the propagate policy) belong before the constructor.
+    m_ = model(repo)
+    runfn = m_.run
+    ctor_st = [st for st in ast.walk(runfn) if isinstance(st, ast.Assign) and U(st.targets[0]) == 'filter' and isinstance(st.value, ast.Call) and U(st.value.func) == 'cls']
+    init_calls = [c for c in q.calls_in(runfn) if U(c.func) == 'filter.init']
+    if not ctor_st or not init_calls:
+        rr.unresolved('Filter.run: the construction of the filter or the call of init() was not found', m_.mod, runfn, key='nothing-fails-between-ctor-and-init')
+    else:
+        lo, hi = ctor_st[0].lineno, init_calls[0].lineno
+        risky = [n for n in ast.walk(runfn) if hasattr(n, 'lineno') and lo < n.lineno < hi and
+                 ((isinstance(n, ast.Subscript) and isinstance(n.ctx, ast.Load) and not isinstance(n.slice, ast.Constant)) or isinstance(n, (ast.Raise, ast.Assert)))]
+        rr.ob('no lookup with a caller-supplied key, raise or assert of run() sits between the construction of the filter and init() (it would end in terminal events without a START)', not risky, m_.mod,
+              risky[0] if risky else ctor_st[0], witness=U(risky[0])[:100] if risky else f'lines {lo}-{hi}', key='nothing-fails-between-ctor-and-init')
     lm = repo.module(LIN)
     stores = []
     for n in ast.walk(lm.tree):
